@@ -222,6 +222,15 @@ func drawOpts(r *rng, gp *genParser, memoPct, recoverFalsePct int) parsersim.Opt
 	if r.chance(1, 5) {
 		o.NoGlobalOpt = true
 	}
+	if r.chance(1, 6) {
+		o.Overridden = true
+		if n := len(gp.G.Rules); n > 1 && !contains(gp.Flags, "-optimize-grammar") {
+			o.OverriddenEntry = gp.G.Rules[n-1].Name
+			if o.OverriddenEntry == o.Entrypoint {
+				o.OverriddenEntry = gp.G.Rules[0].Name
+			}
+		}
+	}
 	return o
 }
 
